@@ -232,8 +232,8 @@ def may_falsify(cond_node, stay_on, a):
     return truthy != waits_while_true
 
 
-def rule_l_cv(la, res, site, rule="L-CV"):
-    """Lost-wake-up freedom for one wait site."""
+def rule_l_cv(la, res, site, rule="L-CV", exempt=None):
+    """Lost-wake-up freedom for one wait site.  exempt(g, access) -> reason or None."""
     f = site["fn"]
     L, cv = site["lock"], site["cv"]
     res.touched(f)
@@ -254,6 +254,10 @@ def rule_l_cv(la, res, site, rule="L-CV"):
                 continue
             if why:
                 res.oblige(rule, inst, True, "exempt: " + why, a.loc())
+                continue
+            why2 = exempt(g, a) if exempt else None
+            if why2:
+                res.oblige(rule, inst, True, "exempt: " + why2, a.loc())
                 continue
             # polarity against every conjunct that reads this field
             conj = [c for c in site["conds"]]
